@@ -68,8 +68,8 @@ func newSenderModel() *senderModel { return &senderModel{rmtWnd: 32, seen: map[u
 func (m *senderModel) deliver(conv uint32, raw []byte) {
 	segs, _ := wire.ParseSegments(raw)
 	for _, sg := range segs {
-		if sg.Conv != conv {
-			return
+		if sg.Conv != conv || len(sg.Data) > 1500 {
+			return // Input stops at the first segment it rejects
 		}
 		m.rmtWnd = uint32(sg.Wnd)
 	}
